@@ -2,7 +2,7 @@
    light response: the daily gross assimilation of a clear and of an overcast day are >= 0 — first for oracle values in
    their ranges, then for the TRUE logarithm and exponential evaluated at the arguments the model computes. *)
 From Coq Require Import ZArith Reals List Bool Lia Lra Psatz.
-From Hermes Require Import Num RUtil CropModel CropProofs RadiaModel.
+From Hermes Require Import Num RUtil CropModel CropProofs CropNModel CropNProofs RadiaModel.
 Import ListNotations.
 Local Open Scope R_scope.
 
@@ -150,6 +150,41 @@ Proof.
   apply Hfin; [rewrite Ec; apply exp_nonpos; exact Hc | rewrite Eo; apply exp_nonpos; exact Ho].
 Qed.
 
+
+(* ==================================================================== *)
+(* radia() as a whole *)
+
+Lemma assim_maint_le (a : as_in (T:=R)) : snd (assim_of a) <= fst (assim_of a).
+Proof.
+  unfold assim_of. cbn [fst snd]. rsimp. unfold RI.ltb.
+  match goal with |- context [Rlt_dec ?g1 (as_maint_pot a)] => destruct (Rlt_dec g1 (as_maint_pot a)) end;
+    destruct (as_cold a); lra.
+Qed.
+
+(* the whole kernel with the TRUE logarithm and exponential: gross assimilation, maintenance and the net assimilation are >= 0 *)
+Lemma radia_nonneg_true (x : rd_in (T:=R)) (trrel vswell maint_pot : R) (cold : bool) :
+  0 <= rd_dle x -> 0 < rd_dl x -> 0 <= rd_drc x -> 0 <= fst (rd_eff_amax x) ->
+  0 < rd_sslae x <= 1 -> 0 <= rd_lai x ->
+  rd_logx x = ln (ro_xarg (rd_light x)) -> rd_logy x = ln (ro_yarg (rd_light x)) ->
+  rd_elai x = exp (- (8 / 10) * rd_lai x) ->
+  rd_ec x = exp (ro_ecarg (rd_light x)) -> rd_eo x = exp (ro_eoarg (rd_light x)) ->
+  0 <= trrel -> 0 <= maint_pot -> (rd_rad x = 0 -> 0 <= rd_sund x) ->
+  let '(gphot, maint) := radia_of x trrel vswell maint_pot cold in
+  0 <= maint <= gphot /\ (forall aspoo, 0 <= aspoo -> 0 <= gphot + aspoo).
+Proof.
+  intros Hdle Hdl Hdrc Heff Hss Hlai Ex Ey El Ec Eo Ht Hm Hs.
+  destruct (rd_light_true x Hdle Hdl Hdrc Heff Hss Hlai Ex Ey El Ec Eo) as [Hc Ho].
+  unfold radia_of.
+  set (a := {| as_rad := rd_rad x; as_sund := _; as_dle := _; as_dgac := _; as_dgao := _; as_drc := _;
+               as_trrel := _; as_vswell := _; as_maint_pot := _; as_cold := _ |}).
+  assert (Hd : 0 < as_dle a).
+  { cbn [a as_dle]. unfold rd_light. destruct (rd_eff_amax x) as [e am].
+    destruct (rd_minmax _ _) as [a1 a2]. destruct (rd_minmax _ _) as [b1 b2]. cbn [ro_dle].
+    apply rd_dle_eff_pos; assumption. }
+  pose proof (assim_nonneg_lemma a Hc Ho Hd Ht Hm Hs) as (H1 & H2 & H3).
+  pose proof (assim_maint_le a) as H4.
+  destruct (assim_of a) as [gp mt]. cbn [fst snd] in *. split; [lra | exact H3].
+Qed.
 
 Definition radia_example : rd_in (T:=R) :=
   {| rd_temp := 18; rd_mintmp := 4; rd_maxamax := 50; rd_co2 := 400; rd_meth := 2; rd_temptyp := 1;
